@@ -119,7 +119,7 @@ def run(rep, tier, seed, replay):
                        "extension message contents: the per-message close verdict of read_done is an input of the case), "
                        "kernel socket semantics (recv returns a prefix of the queued bytes), epoll level triggering",
                        "session harness (harness/common/session.*, wirepeer.h), write side held in ProtocolWrite::MSG during delivery",
-                       "sanitizers (ASan+UBSan) as the observer of memory safety; MSE stream encryption not exercised (no MSE wire peer yet)"]))
+                       "sanitizers (ASan+UBSan) as the observer of memory safety; MSE keystream/DH of the scripted peer from OpenSSL + harness/common/msepeer.h"]))
     model = ltv.build_model("C03")
     impl = ltv.build_harness("c03", ["c03.cc", "common/session.cc"], libs=["-lcrypto"])
     if replay:
@@ -175,6 +175,6 @@ def run(rep, tier, seed, replay):
                         ">= 4 segmentations, every delivery on a fresh connection) + free-mode reactive PIECE scenarios; non-trivial = "
                         "distinct case whose decode emits at least two effects (exact) or that ran to the end (free)",
                    samples=samples, input_distribution=stats, mismatches=mism, exhaustive=False)
-    rep.assumptions += ["plain-text connections only (MSE wire peer not available)", "incoming connections, private torrents (PEX off), DHT off",
+    rep.assumptions += ["plain-text and MSE/RC4 (harness/common/msepeer.h, peer = initiator) connections for the PeerConnection<> roles; metadata role plain only", "incoming connections, private torrents (PEX off), DHT off",
                         "metadata (magnet) connection role driven with a magnet-style meta_download torrent; its ut_metadata piece exchange is C20's",
                         "exact comparison with the write side held; free-mode scenarios judged on safety only"]
